@@ -18,6 +18,7 @@ NPROC = int(os.environ.get("VERIF_NPROC", str(os.cpu_count() or 4)))
 CXX = os.environ.get("CXX", "g++")
 
 REPO_SRC = {
+    "none": [],
     "pess": ["src/lock/pessimistic_lock.cpp"],
     "opt": ["src/lock/optimistic_lock.cpp"],
     "mcs": ["src/lock/mcs_lock.cpp"],
